@@ -232,7 +232,27 @@ func (x *Exec) convert(call *ast.CallExpr, to types.Type, env *Env) Term {
 	v := x.eval(arg, env)
 	ts := x.W.SortOf(to)
 	var r Term
+	isRuneSlice := func(t types.Type) bool {
+		if sl, ok := t.Underlying().(*types.Slice); ok {
+			if eb, ok := sl.Elem().Underlying().(*types.Basic); ok && eb.Kind() == types.Int32 {
+				return true
+			}
+		}
+		return false
+	}
+	isStr := func(t types.Type) bool {
+		b, ok := t.Underlying().(*types.Basic)
+		return ok && b.Info()&types.IsString != 0
+	}
 	switch {
+	case (isStr(from) && isRuneSlice(to)) || (isRuneSlice(from) && isStr(to)):
+		// []rune(string) / string([]rune): a different sequence (UTF-8 decoding/encoding); only the length of
+		// []rune(s) is modelled (runecount)
+		x.W.Note("rune/string conversion abstracted")
+		r = x.freshOrFail(call, to)
+		if isStr(from) {
+			x.W.AddFact(env.pc, Eq(x.W.SeqLen(r), x.runeCount(v, env)))
+		}
 	case ts == SInt && v.Sort == SInt:
 		r = wrap(v, to)
 	case ts == SInt && v.Sort == SReal:
@@ -250,9 +270,16 @@ func (x *Exec) convert(call *ast.CallExpr, to types.Type, env *Env) Term {
 	case x.W.IsSeq(ts) && v.Sort == SInt:
 		r = x.runeToString(v, env)
 	case x.W.IsSeq(ts) && x.W.IsSeq(v.Sort):
-		// []rune(string) or string([]rune): abstract
+		// []rune(string) or string([]rune): abstract, except for the length of []rune(s)
 		x.W.Note("rune/string conversion abstracted")
 		r = x.freshOrFail(call, to)
+		if fb, ok := from.Underlying().(*types.Basic); ok && fb.Info()&types.IsString != 0 {
+			if tsl, ok := to.Underlying().(*types.Slice); ok {
+				if eb, ok := tsl.Elem().Underlying().(*types.Basic); ok && eb.Kind() == types.Int32 {
+					x.W.AddFact(env.pc, Eq(x.W.SeqLen(r), x.runeCount(v, env)))
+				}
+			}
+		}
 	default:
 		if v.Sort == ts {
 			r = v
@@ -263,6 +290,19 @@ func (x *Exec) convert(call *ast.CallExpr, to types.Type, env *Env) Term {
 	}
 	r.GoT = to
 	return r
+}
+
+// runeCount: the number of runes of a string value (uninterpreted function with its range).
+func (x *Exec) runeCount(v Term, env *Env) Term {
+	so := x.W.SeqSort(SInt)
+	if !x.W.constSeen["runecount$ax"] {
+		x.W.constSeen["runecount$ax"] = true
+		x.W.DeclareFun("runecount", []Sort{so}, SInt)
+		ln := string(so) + "_len"
+		x.W.Facts = append(x.W.Facts, fmt.Sprintf("(forall ((s %s)) (! (and (<= 0 (runecount s)) (<= (runecount s) (%s s)) (=> (> (%s s) 0) (> (runecount s) 0))) :pattern ((runecount s))))", so, ln, ln))
+	}
+	x.W.DeclareFun("runecount", []Sort{so}, SInt)
+	return T("(runecount "+v.S+")", SInt)
 }
 
 func (x *Exec) runeToString(v Term, env *Env) Term {
